@@ -533,12 +533,12 @@ Section UnpackD.
     destruct (is_some (klstat fs (render true (ds ++ cs)))); [injection H as <- _; exact Hsame|].
     destruct (negb (required req tg (render true (ds ++ cs)) (clean (e_name e)))); [injection H as <- _; exact Hsame|].
     destruct (split_full_zone ds cs Hcp Hcn) as (l & Hsl & Hzl).
+    destruct (path_outside_base fs (u_dir cfg) (render true (ds ++ cs))); [injection H as <- _; exact Hsame|].
     destruct (e_type e) eqn:Ety; try (injection H as <- _; exact Hsame).
     - (* regular file *)
       destruct (mkdir_all fs (dir_of (render true (ds ++ cs)))) as [fs1 ok] eqn:Hm.
       destruct (mkdir_all_dir_zone ds fs cs fs1 ok Hdp HI Hcp Hcn Hm) as [HI1 HO1].
       destruct (negb ok); [injection H as <- _; split; assumption|].
-      destruct (path_outside_base fs1 (u_dir cfg) (render true (ds ++ cs))); [injection H as <- _; split; assumption|].
       destruct (kwrite fs1 (render true (ds ++ cs)) (e_cid e) (e_size e)) as [fs2|] eqn:Hw.
       + injection H as <- _. destruct (kwrite_zone ds Hdp _ _ _ _ _ _ HI1 Hsl Hzl Hw) as [HI2 HO2].
         split; [exact HI2 | eapply Only_trans; eauto].
@@ -653,32 +653,29 @@ Section UnpackD2.
       - rewrite <- Eds in *. rewrite <- (app_nil_r ds) in Hq.
         apply walk_phys_prefix in Hq; [|exact Hphys|exact Hdp]. rewrite walk_nil in Hq. injection Hq as <-. reflexivity. }
     unfold remove_obsolete in H.
+    destruct (eval_symlinks fs (u_dir cfg)) as [rr|]; [|injection H as <- _; exact Hsame].
     unfold klstat in H. destruct (kwalk fs (u_dir cfg) false) as [q|] eqn:Hq; [|injection H as <- _; exact Hsame].
     pose proof (Hwalk _ _ Hq) as ->.
     assert (Hd : lookup fs ds = Some NDir).
     { destruct HI as [Hphys _]. eapply phys_dir_lookup; [exact Hphys|]. symmetry. apply app_nil_r. }
     rewrite Hd in H. injection H as <- _.
     (* the fold only removes links strictly below ds *)
-    assert (Hall : forall l, (forall p t, In (p, t) l -> strict_below ds p = true) ->
+    assert (Hall : forall (w : path -> bytes) l, (forall p t, In (p, t) l -> strict_below ds p = true) ->
               forall fs0, Inv ds fs0 ->
-              let f := (fun (fs'0 : fsmap) (pt : path * bytes) =>
-                          let '(p, t) := pt in
-                          match kstat fs'0 (if is_abs t then t
-                                            else join2 (dir_of (join_slash (clean (u_dir cfg) :: skipn (length ds) p))) t) with
-                          | Some _ => fs'0
-                          | None => fs_remove fs'0 p
-                          end) in
+              let f := (fun (fs'0 : fsmap) (pt : path * bytes) => obsolete_step rr fs'0 (fst pt) (w (fst pt)) (snd pt)) in
               Inv ds (fold_left f l fs0) /\ Only ds fs0 (fold_left f l fs0)).
-    { induction l as [|[p t] l IHl]; intros Hl fs0 HI0 f.
+    { intros w. induction l as [|[p t] l IHl]; intros Hl fs0 HI0 f.
       - cbn. split; [exact HI0|apply Only_refl].
       - cbn [fold_left]. assert (Hp : strict_below ds p = true) by (eapply Hl; left; reflexivity).
         assert (Hstep : Inv ds (f fs0 (p, t)) /\ Only ds fs0 (f fs0 (p, t))).
-        { unfold f. destruct (kstat fs0 _); [split; [exact HI0|apply Only_refl]|].
+        { unfold f, obsolete_step. cbn [fst snd].
+          match goal with |- context [if ?c then fs0 else _] => destruct c end;
+            [split; [exact HI0|apply Only_refl]|].
           apply remove_inside; assumption. }
         destruct Hstep as [HI1 HO1].
         destruct (IHl (fun p' t' Hin => Hl p' t' (or_intror Hin)) _ HI1) as [HI2 HO2].
         split; [exact HI2 | eapply Only_trans; eauto]. }
-    apply Hall; [|exact HI].
+    apply (Hall (fun p => join_slash (clean (u_dir cfg) :: skipn (length ds) p))); [|exact HI].
     intros p t Hin. apply psort_in in Hin. eapply links_below_in; eauto.
   Qed.
 
@@ -689,7 +686,6 @@ Section UnpackD2.
     intros HI HD. unfold unpack_all.
     destruct (unpack_passes (u_passes cfg) cfg req (fs, []) es) as [[fs1 tg1] err1] eqn:E1.
     destruct (unpack_passes_zone _ _ _ _ _ _ HI HD E1) as [HI1 HO1]. cbn [fst] in *.
-    destruct err1; [split; assumption|].
     destruct (remove_obsolete fs1 (u_dir cfg)) as [fs2 err2] eqn:E2.
     destruct (remove_obsolete_zone _ _ _ HI1 E2) as [HI2 HO2]. cbn [fst].
     split; [exact HI2 | eapply Only_trans; eauto].
@@ -1259,22 +1255,16 @@ Lemma unpack_prefix_confusion_fixed_lemma :
   unpack_all W.cfg W.all_req W.fs0 W.es_mkdir = (W.fs0, false).
 Proof. vm_compute. split; reflexivity. Qed.
 
-Lemma unpack_link_escape_refuted_lemma :
-  exists cfg fs es,
-    clean (u_dir cfg) = u_dir cfg /\ phys_dir fs [] (csegs (u_dir cfg)) = true /\
-    all_changes_inside (csegs (u_dir cfg)) fs (fst (unpack_all cfg W.all_req fs es)) = true /\
-    links_resolve_inside (csegs (u_dir cfg)) (fst (unpack_all cfg W.all_req fs es)) = false.
-Proof. exists W.cfg, W.fs0, W.es_link. vm_compute. repeat split; reflexivity. Qed.
-
-(* what remains of the write through an escaped link after the fix: the file is refused, but
-   MkdirAll still creates the directory "target-evil" outside, THROUGH the link *)
-Lemma unpack_link_mkdir_through_refuted_lemma :
-  exists cfg fs es,
-    clean (u_dir cfg) = u_dir cfg /\ phys_dir fs [] (csegs (u_dir cfg)) = true /\
-    forallb (fun e => no_dotdot (csegs (e_name e))) es = true /\
-    file_outside (csegs (u_dir cfg)) fs (fst (unpack_all cfg W.all_req fs es)) = false /\
-    all_changes_inside (csegs (u_dir cfg)) fs (fst (unpack_all cfg W.all_req fs es)) = false.
-Proof. exists W.cfg, W.fs0, W.es_link_write. vm_compute. repeat split; reflexivity. Qed.
+(* regression (fixes 05026580 + 7b96bcf8): the former link-escape witnesses.  "a/t" -> "../s/.."
+   is removed by the final sweep, nothing is created outside, the run succeeds *)
+Lemma unpack_link_escape_fixed_lemma :
+  let r1 := unpack_all W.cfg W.all_req W.fs0 W.es_link in
+  let r2 := unpack_all W.cfg W.all_req W.fs0 W.es_link_write in
+  snd r1 = false /\ snd r2 = false /\
+  all_changes_inside W.ds W.fs0 (fst r1) = true /\ links_resolve_inside W.ds (fst r1) = true /\
+  all_changes_inside W.ds W.fs0 (fst r2) = true /\ links_resolve_inside W.ds (fst r2) = true /\
+  lookup (fst r1) (W.ds ++ [[97]; [116]]) = None /\ lookup (fst r1) (W.ds ++ [[115]]) = Some (NLink [46]).
+Proof. vm_compute. repeat split; reflexivity. Qed.
 
 (* archives without link entries are contained at full strength: a corollary of D *)
 Lemma no_links_in_D es : forallb (fun e => negb (is_link_entry e)) es = true -> entries_in_D es = true.
